@@ -72,6 +72,10 @@ CHECKS = {
    text="Component extraction (names -> indices, Kelvin-Mandel factor removed) and the von Mises formula are decided symbolically from the extracted source. The energy identity Wdef = 1/2 u'Ku is a polynomial identity in a symbolic nodal state on exact patches (real B, wJ, element operator, scatter-add by C03's contract). Every advertised result name of the Elastic (2-D, 3-D, mixed groups), Thermal, Beam (2-D, 3-D), PhaseField, HyperElastic and InElastic simulations is exercised on arbitrary non-equilibrium states with run-time contracts tying named results to vector/tensor results, Svm, energies, node<->element conversion and reaction balance.",
    note="One mesh and one seeded random state per simulation type; beam internal forces and phase-field energies are only checked for availability; floats with 1e-10.",
    technique="contract-based verification: symbolic execution of extracted result code + exact polynomial identity on the real operators (bounded) + run-time contracts on native runs"),
+ "C18": dict(level="other", design="DESIGN.md 3/C18",
+   text="Invariants I1..I8 and the kinematic operators De / Deta / C: the real HyperElasticState methods run on symbolic tensors and are differentiated exactly (Kelvin-Mandel gradient and Hessian, sym(F' grad v), C(QF) = C(F)). Laws (Neo-Hookean, Mooney-Rivlin, Ciarlet-Geymonat, Saint-Venant-Kirchhoff, Holzapfel-Ogden): the extracted Compute_W / dWde / d2Wde run on formal invariants and formal gradient / Hessian atoms and their coefficients are compared with sympy derivatives of the returned energy for all invariant values and all parameters; a frame scan shows the laws read C only, so stress = dW/dE, tangent = dS/dE, objectivity and the stress-free reference hold for every deformation. Element operators (pointwise PK2, Gonzalez discrete gradient, strain-path quadrature, active stress, Kelvin-Voigt, follower pressure, penalty contact): the real code runs on exact rationals along u0 + t d and K_e d == dR_e/dt is decided as a polynomial / rational identity in t; the one-step energy balance R.(u_n+1 - u_n) == integral of W_n+1 - W_n likewise. Native run-time contracts (bounded) repeat this with every law, the jax AutoDiff law with a user energy, and free motions over many steps.",
+   note="Operator obligations are instances (seeded rational state per element type, Saint-Venant-Kirchhoff so that the field is rational): bounded. Energy conservation over many steps is native and bounded; per step it follows from C18.energy.* and C05. sympy simplification is trusted. Holzapfel-Ogden reference needs orthogonal fibres.",
+   technique="contract-based verification: symbolic execution of extracted constitutive code on formal invariants (sympy) + real kinematics / element operators run on exact symbolic values with exact differentiation + AST frame scan + run-time contracts on native runs"),
 }
 NOT_APPLICABLE = {
 }
